@@ -1,8 +1,25 @@
 /-
   Property C18 — hash set/map: contents, size and iteration match a reference set after any
-  history.  Property theorems only; helper lemmas live in Babylon/Swiss/SeqLemmas.lean.
+  history.  Property theorems only; helper lemmas live in Babylon/Swiss/SeqLemmas*.lean.
+
+  Model: `Babylon/Swiss/Seq.lean` (sequential model of `ConcurrentFixedSwissTable` /
+  `ConcurrentTransientHashSet` / `…HashMap`, differential-tested against the real code on every
+  run of the check).  All theorems hold for every hash function `hash : Nat → Nat`, every table
+  size and every operation sequence.
+
+  Invariant (defined in `SeqLemmasWF.lean` / `SeqLemmasSet.lean`):
+  * `Table.WF hash t`: not the placeholder; `n` a power of two `≥ 16`; `ctrl.length = n + 16`,
+    `vals.length = n`; mirrored tail bytes `ctrl[n+j] = ctrl[j]` (`j < 15`); every bucket is
+    `(EMPTY, none)` or `(tag (hash k), some (k, v))`; `size` = number of elements; keys pairwise
+    distinct; probe-prefix-full (`Table.Reach`: every window probed before the one holding a key
+    is full).
+  * `HSet.WF hash s`: the head is the placeholder or a `WF` table, every chained table is `WF`,
+    every table that has a successor is saturated (placeholder, or all `n` buckets occupied), and
+    keys are pairwise distinct across all tables.
+  Abstraction: `HSet.abs s` = all stored pairs in iteration order (an association list with
+  pairwise distinct keys).  Reference: association list with insert-if-absent (`specInsert`).
 -/
-import Babylon.Swiss.Seq
+import Babylon.Swiss.SeqLemmasRun
 
 namespace Babylon.Properties.C18
 open Babylon.Swiss Babylon.Gen.Swiss Babylon.Core
@@ -15,5 +32,308 @@ theorem gen_constants :
 /-- Generated obligation: `total_size` starts its sum from the head table's *element count*
 (not its bucket count, which is 16 for the element-less placeholder head). -/
 theorem gen_total_size_seed : totalSizeSeed = "size" := by decide
+
+/-! ### 1. the invariant holds initially and is preserved by every operation -/
+
+/-- what the table invariant says (so that the statement is visible here) -/
+theorem table_wf_unfold {hash : Nat → Nat} {t : Table} (h : t.WF hash) :
+    t.dummy = false ∧ (∃ k, t.n = 2 ^ k) ∧ 16 ≤ t.n ∧ t.ctrl.length = t.n + 16 ∧
+    t.vals.length = t.n ∧ (∀ j, j < 15 → t.ctl (t.n + j) = t.ctl j) ∧
+    (∀ i, i < t.n → (t.ctl i = emptyCtl ∧ t.val i = none) ∨
+      (∃ k v, t.ctl i = tagOf (hash k) ∧ t.val i = some (k, v))) ∧
+    t.size = t.occupied.length ∧
+    (∀ i j k, i < t.n → j < t.n → t.keyAt i = some k → t.keyAt j = some k → i = j) ∧
+    (∀ i k, i < t.n → t.keyAt i = some k → t.Reach i (t.n / 16) 0 (t.baseOf (hash k))) := by
+  refine ⟨h.notDummy, h.pow2, h.ge16, h.ctrlLen, h.valsLen, h.mirror, h.bucket, ?_, h.distinct,
+    h.reach⟩
+  rw [h.sizeEq]
+  unfold Table.elems
+  apply filterMap_length_of_isSome
+  intro x hx
+  unfold Table.occupied at hx
+  rw [List.mem_filter, List.mem_range] at hx
+  obtain ⟨k, v, _, hv⟩ := h.ctl_nonneg hx.1 (by simpa using hx.2)
+  simp [hv]
+
+/-- what the set invariant says -/
+theorem set_wf_unfold {hash : Nat → Nat} {s : HSet} (h : s.WF hash) :
+    (s.head = Table.placeholder ∨ s.head.WF hash) ∧ (∀ t ∈ s.chain, t.WF hash) ∧
+    (s.chain ≠ [] → s.head.Sat) ∧ (s.abs.map (·.1)).Nodup := by
+  obtain ⟨hok, hsat, hrest⟩ := h.chain
+  refine ⟨?_, ?_, hsat, h.nodup⟩
+  · rcases hok with h1 | ⟨_, h1⟩
+    · exact Or.inr h1
+    · exact Or.inl h1
+  · have : ∀ (c : List Table), ChainOK hash false c → ∀ t ∈ c, t.WF hash := by
+      intro c
+      induction c with
+      | nil => intro _ t ht; cases ht
+      | cons a as ih =>
+        intro hc t ht
+        rcases List.mem_cons.1 ht with rfl | ht
+        · rcases hc.1 with h1 | ⟨h1, _⟩
+          · exact h1
+          · cases h1
+        · exact ih hc.2.2 t ht
+    exact this _ hrest
+
+theorem wf_default (hash : Nat → Nat) : HSet.default.WF hash ∧ HSet.default.abs = [] :=
+  ⟨(default_refines hash).1, (default_refines hash).2.eq_nil⟩
+
+theorem wf_withBuckets (hash : Nat → Nat) (n : Nat) :
+    (HSet.withBuckets n).WF hash ∧ (HSet.withBuckets n).abs = [] :=
+  ⟨(withBuckets_refines hash n).1, (withBuckets_refines hash n).2.eq_nil⟩
+
+theorem wf_emplace {hash : Nat → Nat} {s : HSet} (h : s.WF hash) (e : Elem) :
+    (s.emplace hash e).1.WF hash := (h.emplace_spec e).1
+
+theorem wf_clear {hash : Nat → Nat} {s : HSet} (h : s.WF hash) : s.clear.WF hash := h.clear.1
+
+theorem wf_reserve {hash : Nat → Nat} {s : HSet} (h : s.WF hash) (n : Nat) :
+    (s.reserve hash n).WF hash := (h.reserve n).1
+
+theorem wf_rehash {hash : Nat → Nat} {s : HSet} (h : s.WF hash) (n : Nat) :
+    (s.rehash hash n).WF hash := (h.rehash n).1
+
+theorem wf_copy {hash : Nat → Nat} {s : HSet} (h : s.WF hash) : (s.copy hash).WF hash := h.copy.1
+
+/-- every operation of the protocol (including move assignment and swap of two containers)
+preserves the invariant of both registers -/
+theorem wf_step {hash : Nat → Nat} {ms : Regs HSet} (h : ∀ r, (ms.get r).WF hash) (op : Op) :
+    ∀ r, ((mstep hash ms op).1.get r).WF hash := by
+  have href : RefS hash ms ⟨ms.a.abs, ms.b.abs⟩ := by
+    intro r
+    cases r
+    · exact ⟨h .A, List.Perm.refl _⟩
+    · exact ⟨h .B, List.Perm.refl _⟩
+  intro r
+  exact ((step_refines href op).1 r).1
+
+/-! ### 2. `emplace` -/
+
+/-- `table_probe_complete`: the table-level `emplace` refuses (`{end(), false}`) only when every
+bucket is occupied (triangular probing visits all `n / 16` windows, which cover the ring), and
+then the table is unchanged and does not hold the key. -/
+theorem table_probe_complete {hash : Nat → Nat} {t : Table} (h : t.WF hash) (e : Elem)
+    (hfull : (t.emplace hash e).2 = .full) :
+    (∀ i, i < t.n → 0 ≤ t.ctl i) ∧ t.size = t.n ∧ (t.emplace hash e).1 = t ∧ t.Absent e.1 := by
+  rcases h.emplace_spec e with ⟨i, v, h1, _⟩ | ⟨i, t', h1, _⟩ | ⟨h1, h2, h3⟩
+  · rw [h1] at hfull; cases hfull
+  · rw [h1] at hfull; cases hfull
+  · refine ⟨?_, h.sat_size h2, by rw [h1], h3⟩
+    rcases h2 with hd | hs
+    · rw [h.notDummy] at hd; cases hd
+    · exact hs
+
+/-- the classic fact behind it: triangular numbers below `2^k` are pairwise distinct mod `2^k`,
+hence hit every residue -/
+theorem triangular_complete (k : Nat) :
+    (∀ a b, a < 2 ^ k → b < 2 ^ k → tri a % 2 ^ k = tri b % 2 ^ k → a = b) ∧
+    (∀ w, w < 2 ^ k → ∃ m, m < 2 ^ k ∧ tri m % 2 ^ k = w) :=
+  ⟨fun _ _ ha hb h => tri_inj ha hb h, fun _ hw => tri_surj hw⟩
+
+/-- the table-level `emplace` never takes a `continue` branch (BUSY / lost race) sequentially -/
+theorem table_emplace_never_stuck {hash : Nat → Nat} {t : Table} (h : t.WF hash) (e : Elem) :
+    (t.emplace hash e).2 ≠ .stuck := by
+  rcases h.emplace_spec e with ⟨i, v, h1, _⟩ | ⟨i, t', h1, _⟩ | ⟨h1, _⟩ <;>
+    (rw [h1]; intro hc; cases hc)
+
+/-- set-level `emplace` never gets stuck; it reports `inserted = true` iff the key was absent;
+the returned position holds the first-inserted pair (the new pair if absent, the unchanged old
+pair otherwise); the content afterwards is the old content plus the pair if the key was absent. -/
+theorem emplace_spec {hash : Nat → Nat} {s : HSet} (h : s.WF hash) (e : Elem) :
+    ∃ ti i, (s.emplace hash e).2 = .done ti i (s.abs.lookup e.1).isNone ∧
+      (s.emplace hash e).1.at ti i = some (e.1, (s.abs.lookup e.1).getD e.2) ∧
+      (s.emplace hash e).1.abs.Perm (specInsert s.abs e) := by
+  have href : Refines hash s s.abs := ⟨h, List.Perm.refl _⟩
+  obtain ⟨h1, ti, i, h2, h3⟩ := href.emplace e
+  exact ⟨ti, i, h2, h3, h1.2⟩
+
+theorem emplace_never_stuck {hash : Nat → Nat} {s : HSet} (h : s.WF hash) (e : Elem) :
+    (s.emplace hash e).2 ≠ .stuck := by
+  obtain ⟨ti, i, h1, _⟩ := emplace_spec h e
+  rw [h1]; intro hc; cases hc
+
+/-- if the key is present nothing changes at all -/
+theorem emplace_present_unchanged {hash : Nat → Nat} {s : HSet} (h : s.WF hash) (e : Elem)
+    {v : Nat} (hv : s.abs.lookup e.1 = some v) : (s.emplace hash e).1 = s := by
+  rcases (h.emplace_spec e).2 with ⟨_, ti, i, _, heq, _⟩ | ⟨habs, _⟩
+  · rw [heq]
+  · rw [lookup_none_of_absent habs] at hv; cases hv
+
+/-- the content as a finite map after `emplace`: first insertion wins -/
+theorem emplace_lookup {hash : Nat → Nat} {s : HSet} (h : s.WF hash) (e : Elem) (k : Nat) :
+    (s.emplace hash e).1.abs.lookup k =
+      match s.abs.lookup k with
+      | some v => some v
+      | none => if k = e.1 then some e.2 else none := by
+  obtain ⟨_, _, _, _, hp⟩ := emplace_spec h e
+  rw [lookup_perm hp (wf_emplace h e).nodup k]
+  exact lookup_specInsert _ _ _
+
+/-! ### 3. `find` -/
+
+/-- `find` succeeds exactly for the stored keys and yields the first-inserted pair -/
+theorem find_eq_lookup {hash : Nat → Nat} {s : HSet} (h : s.WF hash) (k : Nat) :
+    s.find hash k = (s.abs.lookup k).map (fun v => (k, v)) := h.find_eq k
+
+theorem find_iff_mem {hash : Nat → Nat} {s : HSet} (h : s.WF hash) (k v : Nat) :
+    s.find hash k = some (k, v) ↔ (k, v) ∈ s.abs := by
+  rw [h.find_eq k]
+  constructor
+  · intro hf
+    cases hl : s.abs.lookup k with
+    | none => rw [hl] at hf; cases hf
+    | some w =>
+      rw [hl] at hf
+      simp only [Option.map_some, Option.some.injEq, Prod.mk.injEq, true_and] at hf
+      subst hf
+      exact mem_of_lookup hl
+  · intro hm
+    rw [lookup_of_mem_nodup h.nodup hm]
+    rfl
+
+/-! ### 4. `size` -/
+
+/-- `size()` is the number of stored pairs, whose keys are pairwise distinct -/
+theorem size_eq_card {hash : Nat → Nat} {s : HSet} (h : s.WF hash) :
+    s.size = s.abs.length ∧ (s.abs.map (·.1)).Nodup := ⟨h.size_eq, h.nodup⟩
+
+/-! ### 5. iteration -/
+
+/-- `begin()` … `++` … `end()` visits exactly the stored pairs -/
+theorem iter_eq_abs (s : HSet) : s.iter = s.abs := s.iter_eq
+
+/-- each element is visited exactly once, `size()` of them, and they are the `find`-able ones -/
+theorem iter_each_once {hash : Nat → Nat} {s : HSet} (h : s.WF hash) :
+    (s.iter.map (·.1)).Nodup ∧ s.iter.length = s.size ∧
+    ∀ k v, (k, v) ∈ s.iter ↔ s.find hash k = some (k, v) := by
+  rw [s.iter_eq]
+  exact ⟨h.nodup, h.size_eq.symm, fun k v => (find_iff_mem h k v).symm⟩
+
+/-! ### 6. `clear`, `reserve`, `rehash`, copy -/
+
+theorem clear_empty {hash : Nat → Nat} {s : HSet} (h : s.WF hash) :
+    s.clear.WF hash ∧ s.clear.abs = [] ∧ s.clear.size = 0 := by
+  have h1 := h.clear
+  have h2 : s.clear.abs = [] := h1.2.eq_nil
+  refine ⟨h1.1, h2, ?_⟩
+  rw [h1.1.size_eq, h2]; rfl
+
+theorem reserve_preserves {hash : Nat → Nat} {s : HSet} (h : s.WF hash) (n : Nat) :
+    (s.reserve hash n).abs.Perm s.abs ∧
+    ∀ k, (s.reserve hash n).abs.lookup k = s.abs.lookup k :=
+  ⟨(h.reserve n).2, fun k => lookup_perm (h.reserve n).2 (h.reserve n).1.nodup k⟩
+
+theorem rehash_preserves {hash : Nat → Nat} {s : HSet} (h : s.WF hash) (n : Nat) :
+    (s.rehash hash n).abs.Perm s.abs ∧
+    ∀ k, (s.rehash hash n).abs.lookup k = s.abs.lookup k :=
+  ⟨(h.rehash n).2, fun k => lookup_perm (h.rehash n).2 (h.rehash n).1.nodup k⟩
+
+/-- the copy holds the same key → value pairs (nothing is dropped) -/
+theorem copy_eq {hash : Nat → Nat} {s : HSet} (h : s.WF hash) :
+    (s.copy hash).abs.Perm s.abs ∧ (s.copy hash).size = s.size ∧
+    ∀ k, (s.copy hash).abs.lookup k = s.abs.lookup k := by
+  refine ⟨h.copy.2, ?_, fun k => lookup_perm h.copy.2 h.copy.1.nodup k⟩
+  rw [h.copy.1.size_eq, h.size_eq, h.copy.2.length_eq]
+
+/-! ### 7. arbitrary operation sequences -/
+
+/-- both registers default-constructed (initial state of driver and harness) -/
+def minit : Regs HSet := ⟨HSet.default, HSet.default⟩
+def sinit : Regs (List Elem) := ⟨[], []⟩
+
+/-- **Main theorem.**  For every hash function and every sequence of operations over
+{construct (default | n), emplace, find, size, iterate, clear, reserve, rehash, copy,
+move-assign, swap} on two containers, every observable output of the model — the `inserted`
+flag and stored mapped value of `emplace`, the result of `find`, `size()`, and the iteration
+(as a multiset) — equals the output of the reference container (association list, first
+insertion wins); in particular `emplace` never spins; and the final states still refine the
+reference states (so the statement composes). -/
+theorem set_refines_map (hash : Nat → Nat) (ops : List Op) :
+    OutsEquiv (runOps (mstep hash) minit ops).2 (runOps sstep sinit ops).2 ∧
+    ∀ r, Refines hash ((runOps (mstep hash) minit ops).1.get r)
+      ((runOps sstep sinit ops).1.get r) := by
+  have h0 : RefS hash minit sinit := by
+    intro r; cases r <;> exact default_refines hash
+  obtain ⟨h1, h2⟩ := run_refines ops h0
+  exact ⟨h2, h1⟩
+
+/-- the same from any pair of well-formed containers (e.g. constructed with any bucket count) -/
+theorem set_refines_map_from (hash : Nat → Nat) (ms : Regs HSet) (ss : Regs (List Elem))
+    (h : ∀ r, Refines hash (ms.get r) (ss.get r)) (ops : List Op) :
+    OutsEquiv (runOps (mstep hash) ms ops).2 (runOps sstep ss ops).2 ∧
+    ∀ r, Refines hash ((runOps (mstep hash) ms ops).1.get r) ((runOps sstep ss ops).1.get r) := by
+  obtain ⟨h1, h2⟩ := run_refines ops h
+  exact ⟨h2, h1⟩
+
+/-- no `emplace` of any run ever reports `stuck` -/
+theorem run_never_stuck (hash : Nat → Nat) (ops : List Op) :
+    Out.stuck ∉ (runOps (mstep hash) minit ops).2 := by
+  have hspec : ∀ (ops : List Op) (ss : Regs (List Elem)), Out.stuck ∉ (runOps sstep ss ops).2 := by
+    intro ops
+    induction ops with
+    | nil => intro ss h; cases h
+    | cons op ops ih =>
+      intro ss h
+      simp only [runOps] at h
+      rcases List.mem_cons.1 h with h | h
+      · cases op <;> simp only [sstep] at h <;> (try split at h) <;> cases h
+      · exact ih _ h
+  have htr : ∀ {os os' : List Out}, OutsEquiv os os' → Out.stuck ∈ os → Out.stuck ∈ os' := by
+    intro os os' he
+    induction he with
+    | nil => intro h; cases h
+    | cons ho _ ih =>
+      intro h
+      rcases List.mem_cons.1 h with h | h
+      · subst h
+        rename_i o' _ _ _
+        cases o' <;> simp [Out.Equiv] at ho
+        exact List.mem_cons_self
+      · exact List.mem_cons_of_mem _ (ih h)
+  intro h
+  exact hspec ops sinit (htr (set_refines_map hash ops).1 h)
+
+/-! ### 8. non-vacuity: concrete, non-trivial well-formed states -/
+
+/-- 40 keys with the same tag and consecutive probe bases (identity hash) -/
+def keys40 : List Elem := (List.range 40).map (fun k => (k * 128 + 5, k + 100))
+
+/-- a default-constructed set after 40 insertions: placeholder head + tables of 32 and 64 -/
+def s40 : HSet := HSet.default.emplaceAll id keys40
+
+set_option maxRecDepth 100000 in
+example : s40.tables.map (·.n) = [16, 32, 64] ∧ s40.tables.map (·.size) = [0, 32, 8] ∧
+    s40.size = 40 ∧ s40.iter.length = 40 ∧ s40.find id (17 * 128 + 5) = some (17 * 128 + 5, 117) ∧
+    s40.find id 6 = none := by decide +kernel
+
+/-- the invariant's hypotheses are satisfiable by that state (and by every reachable state) -/
+example : s40.WF id ∧ s40.abs.Perm keys40 := by
+  have := Refines.emplaceAll (hash := id) keys40 (default_refines id)
+  rw [foldl_specInsert_nodup _ _ (by decide)] at this
+  exact this
+
+/-- a colliding hash (everything in one probe sequence) on a sized container that must grow -/
+example : ((HSet.withBuckets 16).emplaceAll (fun _ => 0) keys40).WF (fun _ => 0) ∧
+    ((HSet.withBuckets 16).emplaceAll (fun _ => 0) keys40).abs.Perm keys40 := by
+  have := Refines.emplaceAll (hash := fun _ => 0) keys40 (withBuckets_refines _ 16)
+  rw [foldl_specInsert_nodup _ _ (by decide)] at this
+  exact this
+
+set_option maxRecDepth 100000 in
+example : ((HSet.withBuckets 16).emplaceAll (fun _ => 0) keys40).tables.map (·.size) = [16, 24] ∧
+    ((HSet.withBuckets 16).emplaceAll (fun _ => 0) keys40).size = 40 := by decide +kernel
+
+/-- a run exercising growth, copy, swap, clear, reserve and rehash; outputs as predicted -/
+def demoOps : List Op :=
+  (List.range 20).map (fun k => Op.emplace .A (k * 128) k) ++
+  [.emplace .A 128 999, .size .A, .find .A 128, .copy .A .B, .swap .A .B, .clear .B, .size .B,
+   .reserve .A 100, .rehash .A 7, .size .A, .find .A (19 * 128), .find .A 1]
+
+set_option maxRecDepth 100000 in
+example : ((runOps (mstep id) minit demoOps).2.drop 20) =
+    [.emplaced false (some 1), .size 20, .found (some 1), .ok, .ok, .ok, .size 0, .ok, .ok,
+     .size 20, .found (some 19), .found none] := by decide +kernel
 
 end Babylon.Properties.C18
